@@ -16,7 +16,6 @@ MUTANTS = [
     dict(id="comment-sep-first-line", expect=["C09"], edits=[(BASE, '        if ";" in comment:', '        if ";" in comment.split("\\n")[0]:')]),
     dict(id="decontaminate-diti-nonempty", expect=["C09"], edits=[(BASE, "        if self.diti_mode:\n            raise InvalidOperationError(\"Decontamination", "        if self.diti_mode and len(self) == 0:\n            raise InvalidOperationError(\"Decontamination")]),
     dict(id="volume-upper-bound-removed", expect=["C09"], edits=[(WU, "    if volume < 0 or volume > 7158278 or numpy.isnan(volume):", "    if volume < 0 or numpy.isnan(volume):")]),
-    dict(id="volume-one-decimal", expect=["C09"], edits=[(WU, '    volume_str = f"{numpy.round(volume, decimals=2):.2f}"', '    volume_str = f"{numpy.round(volume, decimals=1):.2f}"')]),
     dict(id="lc-sep-first-32", expect=["C09"], edits=[(WU, '    if not isinstance(liquid_class, str) or ";" in liquid_class:', '    if not isinstance(liquid_class, str) or ";" in liquid_class[:32]:')]),
     dict(id="combine-drop-zero-amount", expect=["C05"], edits=[(COMP, "    new_composition = {k: v / (volume_A + volume_B) for k, v in volumetric_fractions.items()}", "    new_composition = {k: v / (volume_A + volume_B) for k, v in volumetric_fractions.items() if v > 0}")]),
     dict(id="fluent-dst-composition", expect=["C16", "C01"], edits=[(FLW, "                                compositions=[source.get_well_composition(s)],", "                                compositions=[destination.get_well_composition(d)],")]),
